@@ -84,9 +84,10 @@ type World struct {
 	nextID int
 	reqs   map[string]*ReqState
 	nreq   int
-	Sched  *Sched      // non-nil: handlers park at OpYield
-	Router *rux.Router // set by Program.Apply: the router nested requests go to
-	Subs   bool        // nested requests (OpSub) enabled
+	Sched  *Sched              // non-nil: handlers park at OpYield
+	Router *rux.Router         // set by Program.Apply: the router nested requests go to
+	Subs   bool                // nested requests (OpSub) enabled
+	lent   [][]rux.HandlerFunc // handler slices handed to registration calls (see reuseLentSlices)
 }
 
 // ReqState is the real-side state of one in-flight request.
@@ -106,8 +107,10 @@ type ReqState struct {
 	NRecovered int // how often the OnPanic hook ran
 
 	cmu      sync.Mutex
-	Copies   []*rux.Context // contexts obtained by c.Copy() and kept beyond the request
-	copyBase []string       // what each copy held when its request ended
+	Copies   []*rux.Context   // contexts obtained by c.Copy() and kept beyond the request
+	Kept     []map[string]any // maps obtained from c.Data() and kept beyond the request
+	keptBase []string
+	copyBase []string // what each copy held when its request ended
 }
 
 // AddCopy records a copy taken by a handler.
@@ -126,6 +129,15 @@ func CopyText(c *rux.Context) string {
 	return "data={" + dataText(c.Data()) + "} params={" + paramsText(c.Params) + "} errors=[" + strings.Join(errs, "; ") + "]"
 }
 
+// AddKept records a values map a handler keeps beyond its request.
+func (st *ReqState) AddKept(m map[string]any) {
+	st.cmu.Lock()
+	defer st.cmu.Unlock()
+	if m != nil {
+		st.Kept = append(st.Kept, m)
+	}
+}
+
 // FreezeCopies records what the copies hold now (called right after their request ended).
 func (st *ReqState) FreezeCopies() {
 	st.cmu.Lock()
@@ -137,8 +149,19 @@ func (st *ReqState) FreezeCopies() {
 		if !st.jobsDone {
 			c.AddError(fmt.Errorf("background job of %s failed", st.ID))
 			c.Set("job-of", st.ID)
+			// ... and reports the failure on its own context: a copy has its own response state (no connection
+			// behind it), so this is nobody else's status
+			c.Resp.WriteHeader(599)
+			c.SetStatus(598)
 		}
 		st.copyBase = append(st.copyBase, CopyText(c))
+	}
+	st.keptBase = st.keptBase[:0]
+	for _, m := range st.Kept {
+		if !st.jobsDone {
+			m["note-of-the-job-of-"+st.ID] = "x" // visible to later requests only if they were given this very map
+		}
+		st.keptBase = append(st.keptBase, dataText(m))
 	}
 	st.jobsDone = true
 }
@@ -151,6 +174,13 @@ func (st *ReqState) CheckCopies() error {
 		if i < len(st.copyBase) {
 			if now := CopyText(c); now != st.copyBase[i] {
 				return fmt.Errorf("a context copy taken by request %s held %s when that request ended, now it holds %s", st.ID, st.copyBase[i], now)
+			}
+		}
+	}
+	for i, m := range st.Kept {
+		if i < len(st.keptBase) {
+			if now := dataText(m); now != st.keptBase[i] {
+				return fmt.Errorf("the values map (c.Data()) kept by request %s held {%s} when that request ended, now it holds {%s}", st.ID, st.keptBase[i], now)
 			}
 		}
 	}
